@@ -7,3 +7,5 @@ pub mod codec;
 pub mod bip32;
 pub mod script_tok;
 pub mod wire;
+pub mod sighash;
+pub mod interp_model;
